@@ -291,6 +291,22 @@ func filterChannel(o vh.Opts, r *vh.RNG) *vh.Channel {
 
 // ---------------------------------------------------------------- channel fields.pipe
 
+// longFilter: the filter part in front of the pipe.  One query in four carries a phrase of 257..2000 bytes on the
+// text-mapped field `message` (or-ed, so the result set stays "all documents"): the stores parse it with the real
+// mapping, the proxy re-parses the whole query with a nil mapping when it extracts the pipe.
+func longFilter(r *vh.RNG) string {
+	if r.Intn(4) != 0 {
+		return "service:c20"
+	}
+	n := 257 + r.Intn(1744)
+	var b strings.Builder
+	for b.Len() < n {
+		b.WriteString([]string{"timeout", "while", "connecting", "to", "upstream", "retry", "x"}[r.Intn(7)])
+		b.WriteByte(' ')
+	}
+	return `service:c20 or message:"` + b.String()[:n] + `"`
+}
+
 // kwCase writes a keyword in one of the spellings the lexer accepts (lexer.IsKeyword is case-insensitive).
 func kwCase(r *vh.RNG, kw string) string {
 	switch r.Intn(4) {
@@ -708,7 +724,8 @@ func searchOracle(o vh.Opts, r *vh.RNG, rep *vh.Report, g *storeapi.GrpcV1, docs
 			continue
 		}
 		allow := r.Bool()
-		qs := "service:c20 | " + kwCase(r, "fields") + " "
+		flt := longFilter(r)
+		qs := flt + " | " + kwCase(r, "fields") + " "
 		mode := "allow"
 		if !allow {
 			qs += kwCase(r, "except") + " "
@@ -724,7 +741,7 @@ func searchOracle(o vh.Opts, r *vh.RNG, rep *vh.Report, g *storeapi.GrpcV1, docs
 			order = seq.DocsOrderAsc
 		}
 		line := fmt.Sprintf("search seed=%d req=%d off=%d size=%d order=%d query=%s", o.Seed, q, off, size, order, hex.EncodeToString([]byte(qs)))
-		ids0, plain, err1 := run("service:c20", off, size, order)
+		ids0, plain, err1 := run(flt, off, size, order)
 		// one request in five: the replica that answers the search is down when the documents are fetched; the shard
 		// has a second replica with the same data.  An error is an honest answer, a document that is not the
 		// projection is not.
@@ -786,7 +803,11 @@ func searchOracle(o vh.Opts, r *vh.RNG, rep *vh.Report, g *storeapi.GrpcV1, docs
 		if replicaDown {
 			tagDown = "replica-down-at-fetch=answered"
 		}
-		orc.Case(line, keptAny && removedAny, "mode="+mode, fmt.Sprintf("order=%d", order), tagDown)
+		tagLong := "long-text-literal=no"
+		if len(flt) > 200 {
+			tagLong = "long-text-literal=yes"
+		}
+		orc.Case(line, keptAny && removedAny, "mode="+mode, fmt.Sprintf("order=%d", order), tagDown, tagLong)
 		if bad != "" {
 			rep.Violate(vh.Violation{Site: "proxy/search/ingestor.go:Search", Class: "wrong-projection-or-document-set", What: bad + " (query " + qs + ")", Replay: []string{line}})
 		}
@@ -804,11 +825,14 @@ type testStore struct {
 }
 
 // genBigDoc: a document above 128 KiB (the decoder of the pooled field filter grows with it)
-func genBigDoc(r *vh.RNG) ([]byte, []keyForm) {
+func genBigDoc(r *vh.RNG) ([]byte, []keyForm) { return genBigDocN(r, 200_000, 400_000) }
+
+// genBigDocN: a document whose field "big" holds lo..hi bytes
+func genBigDocN(r *vh.RNG, lo, hi int) ([]byte, []keyForm) {
 	keys := []keyForm{{`"a"`, "a"}, {`"big"`, "big"}, {`"level"`, "level"}, {`"msg"`, "msg"}}
 	var b strings.Builder
 	b.WriteString(`{"a":` + fmt.Sprint(r.Intn(1000)) + `,"big":"`)
-	n := 200_000 + r.Intn(200_000)
+	n := lo + r.Intn(hi-lo)
 	for i := 0; i < n; i++ {
 		b.WriteByte(byte('a' + (i*7+n)%26))
 	}
@@ -1172,6 +1196,146 @@ func proxyFetchOracle(o vh.Opts, r *vh.RNG, rep *vh.Report, g *storeapi.GrpcV1, 
 	return orc
 }
 
+// singleOracle: the single-binary wiring - the real storeapi.Store behind the in-memory StoreApiClient
+// (storeapi.NewClient) under the real search.Ingestor - with documents above 16 KiB followed by small ones.
+func singleOracle(o vh.Opts, r *vh.RNG, rep *vh.Report) *vh.Oracle {
+	orc := vh.NewOracle("fields.single", "single mode: search.Ingestor.Documents over storeapi.NewClient(store) (the in-memory client --mode single uses) on a real store holding documents of 17-90 KiB among small ones; requests put a big document in front of smaller ones (and random orders), with no filter, except lists, and allow lists naming the big field; every answer must be its own document / projection; non-trivial = a big document followed by a smaller one")
+	dir, err := os.MkdirTemp("", "verif-c20-single-")
+	if err != nil {
+		orc.Error = err.Error()
+		return orc
+	}
+	defer os.RemoveAll(dir)
+	mp, _ := mappingprovider.New("", mappingprovider.WithMapping(seq.TestMapping))
+	ctx := context.Background()
+	store, err := storeapi.NewStore(ctx, storeapi.StoreConfig{
+		API:         storeapi.APIConfig{Search: storeapi.SearchConfig{WorkersCount: 2, FractionsPerIteration: 2, Async: fracmanager.AsyncSearcherConfig{DataDir: filepath.Join(dir, "async")}}},
+		FracManager: *fracmanager.FillConfigWithDefault(&fracmanager.Config{DataDir: dir, FracSize: 1 << 40, TotalSize: 1 << 42, CacheSize: 256 * consts.MB}),
+	}, mp)
+	if err != nil {
+		orc.Error = "NewStore: " + err.Error()
+		return orc
+	}
+	defer store.Stop()
+	var docs []stored
+	var bigIdx, smallIdx []int
+	for part := 0; part < 2; part++ {
+		dp := frac.NewDocProvider()
+		for i := 0; i < 40; i++ {
+			d, keys := genDoc(r)
+			if i%4 == 0 {
+				d, keys = genBigDocN(r, 17_000, 90_000)
+				bigIdx = append(bigIdx, len(docs))
+			} else {
+				smallIdx = append(smallIdx, len(docs))
+			}
+			id := seq.ID{MID: seq.MID(1_700_000_000_000 + uint64(len(docs))), RID: seq.RID(1000 + uint64(r.Intn(1000)))}
+			docs = append(docs, stored{id, d, keys})
+			dp.Append(d, nil, id, seq.Tokens("_all_:", "service:c20"))
+		}
+		req := &pb.BulkRequest{Count: int64(dp.DocCount)}
+		req.Docs, req.Metas = dp.Provide()
+		if _, err := store.GrpcV1().Bulk(ctx, req); err != nil {
+			orc.Error = "bulk: " + err.Error()
+			return orc
+		}
+		store.FracManager.WaitIdle()
+		if part == 0 {
+			store.FracManager.SealForcedForTests()
+			store.FracManager.WaitIdle()
+		}
+	}
+	hot := stores.NewStoresFromString("memory", 1)
+	none := stores.NewStoresFromString("", 1)
+	si := search.NewIngestor(search.Config{HotStores: hot, HotReadStores: none, ReadStores: none, WriteStores: none},
+		map[string]pb.StoreApiClient{"memory": storeapi.NewClient(store)})
+	n := o.Pick(80, 1000)
+	for q := 0; q < n; q++ {
+		var sel []int
+		seen := map[int]bool{}
+		pick := func(from []int) {
+			k := from[r.Intn(len(from))]
+			if !seen[k] {
+				seen[k] = true
+				sel = append(sel, k)
+			}
+		}
+		shape := []string{"big-then-small", "big-big-small", "random"}[r.Intn(3)]
+		switch shape {
+		case "big-then-small":
+			pick(bigIdx)
+			for j := 1 + r.Intn(5); j > 0; j-- {
+				pick(smallIdx)
+			}
+		case "big-big-small": // the second big one smaller or larger than the first, then small ones
+			pick(bigIdx)
+			pick(bigIdx)
+			for j := 1 + r.Intn(3); j > 0; j-- {
+				pick(smallIdx)
+			}
+		default:
+			for j := 2 + r.Intn(8); j > 0; j-- {
+				if r.Intn(3) == 0 {
+					pick(bigIdx)
+				} else {
+					pick(smallIdx)
+				}
+			}
+		}
+		mode := []string{"none", "except", "allow-big"}[r.Intn(3)]
+		var ff search.FetchFieldsFilter
+		var fields []string
+		switch mode {
+		case "except":
+			fields = []string{"level", "a"}
+			ff = search.FetchFieldsFilter{Fields: fields}
+		case "allow-big":
+			fields = []string{"big", "msg", "a"}
+			ff = search.FetchFieldsFilter{Fields: fields, AllowList: true}
+		}
+		var ids []seq.ID
+		var idS []string
+		for _, k := range sel {
+			ids = append(ids, docs[k].id)
+			idS = append(idS, fmt.Sprintf("%d:%d", uint64(docs[k].id.MID), uint64(docs[k].id.RID)))
+		}
+		line := fmt.Sprintf("single seed=%d req=%d %s mode=%s ids=%s", o.Seed, q, shape, mode, strings.Join(idS, ","))
+		bad := ""
+		it, err := si.Documents(ctx, search.FetchRequest{IDs: ids, FieldsFilter: ff})
+		if err != nil {
+			bad = "fetch failed: " + err.Error()
+		}
+		got := 0
+		for bad == "" {
+			d, err := it.Next()
+			if err != nil {
+				break
+			}
+			if got >= len(sel) {
+				bad = "more documents than requested"
+				break
+			}
+			st := &docs[sel[got]]
+			if d.ID != st.id {
+				bad = fmt.Sprintf("position %d carries another id", got)
+				break
+			}
+			if m := checkProjection(st, d.Data, fields, mode == "allow-big", mode != "none"); m != "" {
+				bad = fmt.Sprintf("position %d (%d stored bytes): %s", got, len(st.doc), m)
+			}
+			got++
+		}
+		if bad == "" && got != len(sel) {
+			bad = fmt.Sprintf("%d documents for %d ids", got, len(sel))
+		}
+		orc.Case(line, shape != "random", "shape="+shape, "mode="+mode)
+		if bad != "" {
+			rep.Violate(vh.Violation{Site: "storeapi/client.go:Fetch", Class: "single-mode-wrong-document", What: bad, Replay: []string{line}})
+		}
+	}
+	return orc
+}
+
 func fetchOracle(o vh.Opts, r *vh.RNG, rep *vh.Report) *vh.Oracle {
 	orc := vh.NewOracle("fields.fetch", "real storeapi.GrpcV1.Fetch with FieldsFilter over stored generated JSON objects (all value types, nesting, escapes, unicode, number notations, empty object, up to 26 fields) x field lists (present, absent, all, none, repeated) x allow/except, sealed and active fractions: every answer valid JSON, an object with exactly the expected top-level (name, value) multiset (values compared after json.Compact), not-found entries and the sequence of IDs as in the fetch without filter; non-trivial = at least one field kept and one removed in some document")
 	dir, err := os.MkdirTemp("", "verif-c20-")
@@ -1309,7 +1473,7 @@ func fetchOracle(o vh.Opts, r *vh.RNG, rep *vh.Report) *vh.Oracle {
 		}
 		if simple && r.Bool() {
 			via = "query"
-			qs := "service:c20 | " + kwCase(r, "fields") + " "
+			qs := longFilter(r) + " | " + kwCase(r, "fields") + " "
 			if !allow {
 				qs += kwCase(r, "except") + " "
 			}
@@ -1426,6 +1590,14 @@ func main() {
 			os.Exit(3)
 		}
 		for _, l := range lines {
+			if strings.HasPrefix(l, "single seed=") {
+				var cs int64
+				fmt.Sscanf(l, "single seed=%d", &cs)
+				oo := o
+				oo.Seed = cs
+				rep.AddOracle(singleOracle(oo, vh.NewRNG(cs+404), rep))
+				break
+			}
 			if strings.HasPrefix(l, "concurrent seed=") {
 				var cs int64
 				var tier string
@@ -1469,6 +1641,9 @@ func main() {
 	}
 	if run("fields.fetch") {
 		rep.AddOracle(fetchOracle(o, r3, rep))
+	}
+	if run("fields.single") {
+		rep.AddOracle(singleOracle(o, vh.NewRNG(o.Seed+404), rep))
 	}
 	if run("fields.concurrent") {
 		rep.AddOracle(concurrentOracle(o, rep))
